@@ -443,12 +443,13 @@ fn log_sum_exp<F: linfa::Float, A: Data<Elem = F>>(
     m: &ArrayBase<A, Ix2>,
     axis: Axis,
 ) -> Array<F, Ix1> {
-    // Find max value of the array
-    let max = m.iter().copied().reduce(F::max).unwrap();
-    // Computes `max + ln(exp(x1-max) + exp(x2-max) + exp(x3-max) + ...)`, which is equal to the
-    // log_sum_exp formula
-    let reduced = m.fold_axis(axis, F::zero(), |acc, elem| *acc + (*elem - max).exp());
-    reduced.mapv_into(|e| e.max(F::cast(1e-15)).ln() + max)
+    // Computes `max + ln(exp(x1-max) + exp(x2-max) + exp(x3-max) + ...)` for every lane along `axis`,
+    // where `max` is the largest value of that lane (not of the whole array: a lane far below the
+    // global maximum would underflow to `ln(0)`). The sum is at least 1, so the log is well defined.
+    m.map_axis(axis, |lane| {
+        let max = lane.iter().copied().reduce(F::max).unwrap();
+        lane.fold(F::zero(), |acc, elem| acc + (*elem - max).exp()).ln() + max
+    })
 }
 
 /// Computes `exp(n - max) / sum(exp(n- max))`, which is a numerically stable version of softmax
